@@ -528,16 +528,12 @@ func (b *BaseStore) Load(ctx context.Context, amount int) error {
 	progress := make(chan ifacelog.IPFSLogEntry)
 	defer close(progress)
 	go func() {
-		for {
-			var entry ifacelog.IPFSLogEntry
-			select {
-			case <-ctx.Done():
-				return
-			case entry = <-progress:
-				if entry == nil {
-					// should not happen
-					return
-				}
+		// the fetcher sends on this channel unconditionally: keep receiving until the
+		// channel is closed, even when the context is done, or the fetch never returns
+		for entry := range progress {
+			if entry == nil {
+				// should not happen
+				continue
 			}
 
 			b.recalculateReplicationStatus(entry.GetClock().GetTime())
